@@ -503,6 +503,23 @@ class UnitFieldType(FieldType):
         return chunks, align
 
 
+class DecimalsFieldType(FieldType):
+    """an application's field type (one documented hook overridden, super() called) shared by all its tables; it has
+    one setting, the number of decimals, which the preferences dialog may change at any time"""
+
+    def __init__(self):
+        super().__init__()
+        self.decimals = 2
+
+    def make_desired_cell_ch_chunks(self, value, fmt_modifier, field_palette):
+        if isinstance(value, float) and fmt_modifier is None:
+            return [field_palette.number(f"{value:.{self.decimals}f}")], akppobj.ALIGN_RIGHT
+        return super().make_desired_cell_ch_chunks(value, fmt_modifier, field_palette)
+
+
+APP_DECIMALS = DecimalsFieldType()      # the one long-lived object of the application
+
+
 class LegendTable(PPTable):
     """a user's table class: the documented line generator is overridden to append a legend"""
 
@@ -603,6 +620,10 @@ def build_object(spec, enums):
             ft = kw.setdefault("fields_types", {})
             for n, args in spec["wtypes"].items():
                 ft.setdefault(n, width_field_type(args))
+        if spec.get("dec_col") and "level" in spec["fields"]:
+            kw.setdefault("fields_types", {})["level"] = APP_DECIMALS
+            if REFERENCE_PROCESS:
+                APP_DECIMALS.decimals = spec.get("decimals_now", 2)
         if spec.get("own_palette_cols"):
             # every column has the application's field type with a palette of its own: the table itself never asks
             # for the standard record palette
